@@ -6,7 +6,7 @@ import re
 ID = 'C18'
 RULE = ('the workloads of the other monitors (C01-C17: pairings, group law over the representation grid, scalar multiplication, field '
         'arithmetic on limb-pattern operands, histories, malformed decoder inputs, conversions of every length, square roots, encodings, '
-        'Gt arithmetic, the internal tower through the hooks) are regenerated with this check\'s own seeds and every program is executed by '
+        'Gt arithmetic, the internal tower through the hooks) and a workload of MALFORMED group operands (triples off the curve, same x with unrelated y, z = 0 junk, affine values edited through the setters; no oracle for these) are regenerated with this check\'s own seeds and every program is executed by '
         'two executors built from the same tree: --release, and the dev profile exactly as the repository configures it (opt-level 0 for '
         'sm9_core, 3 for dependencies, debug-assertions and overflow-checks on). The two answer logs must be identical line by line '
         '(values, Jacobian coordinates, Ok/Err kinds, None, panics), and no answer may be a panic whose message is an arithmetic/shift '
@@ -19,6 +19,7 @@ PLAN = {
     'c01': (12, 400), 'c02': (12, 300), 'c03': (16, 400), 'c04': (120, 2500), 'c05': (30, 800), 'c06': (40, 1500), 'c07': (40, 1500),
     'c08': (213, 3000), 'c09': (12, 300), 'c10': (16, 400), 'c11': (12, 400), 'c12': (40, 1500), 'c13': (190, 3000), 'c14': (30, 1000),
     'c15': (60, 1500), 'c16': (60, 2000), 'c17': (36, 1200),
+    'c18junk': (60, 2000),      # malformed group operands (off-curve triples, same x with unrelated y ...): profiles compared, no oracle
 }
 BAD_PANIC = re.compile(r'overflow|assert|index out of bounds|out of range|shift|unreachable|slice index|subtract|underflow', re.I)
 
